@@ -16,5 +16,7 @@ lp = dprops.mine_looped(w)
 json.dump(lp, open(os.path.join(facts.VERIF, 'rules', 'looped.json'), 'w'), indent=1)
 bf = dprops.mine_boundflow(w)
 json.dump(bf, open(os.path.join(facts.VERIF, 'rules', 'boundflow.json'), 'w'), indent=1)
-print('looped pairs', len(lp), 'bound-flow triples', len(bf))
+af = dprops.mine_argflow(w)
+json.dump(af, open(os.path.join(facts.VERIF, 'rules', 'argflow.json'), 'w'), indent=1)
+print('looped pairs', len(lp), 'bound-flow triples', len(bf), 'arg-flow triples', len(af))
 print('d4 classes', len(out_d4), 'sites', sum(len(v) for v in out_d4.values()), '; must-call pairs', len(mcs))
